@@ -111,6 +111,8 @@ MoveOK(e) ==
   (e.op \in MoveOps /\ IsQK(e.before.kind) /\ IsQK(e.after.kind)) =>
      /\ e.after.codes = e.before.codes /\ e.after.qt = e.before.qt /\ e.after.axis = e.before.axis
      /\ e.after.pdtype = e.before.pdtype
+     /\ (e.before.kind = "QBits") => (e.after.kind = "QBits" /\ e.after.gs = e.before.gs /\ e.after.packed_rows = e.before.packed_rows
+                                      /\ e.after.sshape = e.before.sshape)
      /\ e.op = "to" => (e.after.dtype = e.o.dtype /\ e.after.sdtype = e.o.dtype)
      /\ e.op # "to" => e.scale = e.scale_before
 
